@@ -101,7 +101,7 @@ Definition merge_simple (v u : loc) (force : bool) : merged :=
   | _, _ => Append
   end.
 
-Fixpoint push (fuel : nat) (ll : list loc) (l : loc) (force : bool) : out (list loc) :=
+Fixpoint ll_push (fuel : nat) (ll : list loc) (l : loc) (force : bool) : out (list loc) :=
   match fuel with
   | O => OutOfFuel
   | S f =>
@@ -110,7 +110,7 @@ Fixpoint push (fuel : nat) (ll : list loc) (l : loc) (force : bool) : out (list 
       (fix go (ll : list loc) (js : list loc) : out (list loc) :=
          match js with
          | [] => Ok ll
-         | j :: t => ll' <- push f ll j force ;; go ll' t
+         | j :: t => ll' <- ll_push f ll j force ;; go ll' t
          end) ll js
     | _ =>
       match split_last ll with
@@ -118,11 +118,11 @@ Fixpoint push (fuel : nat) (ll : list loc) (l : loc) (force : bool) : out (list 
       | Some (init, last) =>
         match last, l with
         | Complemented v, Complemented u =>
-          tmp <- push f [u] v force ;;
+          tmp <- ll_push f [u] v force ;;
           pushed <- (fix go (acc : list loc) (xs : list loc) : out (list loc) :=
                        match xs with
                        | [] => Ok acc
-                       | x :: t => acc' <- push f acc x true ;; go acc' t
+                       | x :: t => acc' <- ll_push f acc x true ;; go acc' t
                        end) [] tmp ;;
           match pushed with
           | [] => Panic
@@ -140,17 +140,17 @@ Fixpoint push (fuel : nat) (ll : list loc) (l : loc) (force : bool) : out (list 
     end
   end.
 
-Fixpoint push_all (fuel : nat) (acc : list loc) (xs : list loc) (force : bool) : out (list loc) :=
+Fixpoint ll_push_all (fuel : nat) (acc : list loc) (xs : list loc) (force : bool) : out (list loc) :=
   match xs with
   | [] => Ok acc
-  | x :: t => acc' <- push fuel acc x force ;; push_all fuel acc' t force
+  | x :: t => acc' <- ll_push fuel acc x force ;; ll_push_all fuel acc' t force
   end.
 
 Definition list_size (ls : list loc) : nat := fold_right (fun x acc => loc_size x + acc)%nat O ls.
 
 (* gts.Join(locs...) *)
 Definition join (locs : list loc) : out loc :=
-  r <- push_all (S (S (list_size locs))) [] locs true ;;
+  r <- ll_push_all (S (S (list_size locs))) [] locs true ;;
   match r with
   | [] => Panic
   | [x] => Ok x
